@@ -463,10 +463,8 @@ theorem st_tdBase (w : World) (i : Nat) (s : Sess) : Stay s.id w (tdBase w i s) 
 theorem st_teardown (w : World) (i : Nat) (s : Sess) : Stay s.id w (teardown w i s).1 := by
   rw [teardown_eq]
   split
+  · exact (st_tdBase w i s).trans (st_sessDelete _ _ _ _)
   · exact st_tdBase w i s
-  · split
-    · exact st_tdBase w i s
-    · exact (st_tdBase w i s).trans (st_sessDelete _ _ _ _)
 
 theorem st_shutdown (w : World) (i : Nat) (sid : String) : Stay sid w (w.shutdownSession i sid) := by
   cases hs : (w.node i).sess sid with
